@@ -353,6 +353,9 @@ def child_env(extra=None, hashseed="0"):
     e = dict(os.environ)
     e["PYTHONHASHSEED"] = hashseed
     e["HISTSIM_TIER"] = TIER_ENV["tier"]
+    # single-threaded numerics: no BLAS / OpenMP thread pools in processes that fork (and no 16 x n threads)
+    for var in ("OPENBLAS_NUM_THREADS", "OMP_NUM_THREADS", "MKL_NUM_THREADS", "NUMEXPR_NUM_THREADS"):
+        e[var] = "1"
     e.pop("PHYST_FREE_ARITHMETICS", None)
     for k, v in (extra or {}).items():
         if v is None:
@@ -479,6 +482,9 @@ def check_main(a):
                 json.dump({"violation": vio, "plan": plan_text}, f)
             rp = os.path.join(VERIF, "replays", f"{prop}-{json.loads(plan_text)['seed']}-{n}.json")
             budget = (300, 20.0) if n < 6 else (1, 5.0)
+            if os.environ.get("HISTSIM_TRIAGE") == "brief":
+                # (sensitivity runs over dozens of seeded changes only need to know that something reproducible fails)
+                budget = (40, 4.0) if n < 2 else (1, 2.0)
 
             def reproduces(path):
                 # a replay file must reproduce in a fresh process before it is reported
